@@ -134,6 +134,8 @@ fn check_poll(fair: bool, queue: &[usize]) {
     let wk = kit::waker(N + kit::any_lt(2));
     let mut cx = Context::from_waker(&wk);
     let was_locked = w.mx.is_locked();
+    let was_queued = linked(&w, i);
+    let q0 = lv::view(&w.mx.state.lock().waiters);
     kit::arm();
     let r = unsafe { core::pin::Pin::new_unchecked(&mut *w.futs[i]) }.poll(&mut cx);
     let term = w.futs[i].is_terminated();
@@ -151,6 +153,13 @@ fn check_poll(fair: bool, queue: &[usize]) {
         let t = w.futs[i].wait_node.task.as_ref();
         assert!(t.is_some() && t.unwrap().will_wake(&wk), "[C03] a pending future is registered with the waker of its latest poll");
         assert!(linked(&w, i), "[C03] a pending future is queued");
+        // (lesson of seeded change C09_r71, applied to every primitive: a re-poll -- with whatever waker -- must not re-queue)
+        let q1 = lv::view(&w.mx.state.lock().waiters);
+        if was_queued {
+            assert!(lv::same(q0, q1), "[C04] re-polling a waiting lock future does not change its place in the order of arrival");
+        } else {
+            assert!(lv::same(lv::pushed_front(q0, lv::addr(&w.futs[i].wait_node)), q1), "[C04] a future that starts waiting takes the youngest place; the others keep theirs");
+        }
     }
     assert!(kit::total_wakes() == 0, "[C03] polling wakes nobody");
     // keep the guard alive (no unlock) -- its Drop is checked separately
